@@ -1,10 +1,10 @@
 SPECIFICATION Spec
 CONSTANTS
-  Procs = {1, 2, 3}
+  Procs = {1, 2}
   Blocks = {"a", "b", "c"}
-  TilesPerBlock = 2
+  TilesPerBlock = 1
   Cap = 2
-  Variant = "code"
+  Variant = "bypass"
   MaxOps = 2
 INVARIANT InvMutex
 INVARIANT InvBounded
